@@ -20,7 +20,7 @@ UPSERT_FIXED_LOOPS = {
 }
 
 UPSERT_FIXED_ANCHORS = [
-    {"after": "let tuple = (value, expiry);", "proof": "let ghost tup = tuple; let ghost mut g_dd: Option<int> = None;"},
+    {"after": "let tuple = (value, expiry);", "proof": "let ghost tup = tuple; let ghost mut g_dd: Option<int> = None; assert(is_now(now)); assert(now.add_req(ttl)); assert(inst(expiry) == inst(now) + dur(ttl));"},
     {"after": "if let Some(partition) = self.partitions.get_mut(&partition_key) {",
      "proof": "let ghost p0 = *partition; proof { lemma_map_sum_insert(old(self).partitions@, psize::<K2, V>(), partition_key, p0); }"},
     {"after": "if let Some(tuples) = partition.records.get_mut(&record_key) {", "proof": "let ghost t0 = tuples@;"},
@@ -76,9 +76,14 @@ assert(jdx__ + 1 == itv__.seq().len() && new_next_expiry != expiry ==> ne_attain
     lemma_map_sum_empty::<K2, Vec<(V, Instant)>>(vlen::<(V, Instant)>());
     lemma_map_sum_insert(Map::<K2, Vec<(V, Instant)>>::empty(), vlen::<(V, Instant)>(), record_key, records@[record_key]);
     assert(has_tuple(records@, record_key, 0));
+    assert(records@[record_key]@ =~= Seq::<(V, Instant)>::empty().push(tup));
+    assert(upsert_recs(Map::<K2, Vec<(V, Instant)>>::empty(), records@, record_key, tup, None));
 }"""},
     {"after": "self.current_size += 1;", "at": "before", "proof": """proof {
     lemma_map_sum_insert(old(self).partitions@, psize::<K2, V>(), partition_key, self.partitions@[partition_key]);
+    assert(upsert_recs(recs_or_empty(old(self).partitions@, partition_key), self.partitions@[partition_key].records@, record_key, tup, g_dd));
+    assert(dup_ok(recs_or_empty(old(self).partitions@, partition_key), record_key, tup.0, g_dd));
+    assert(is_now(now) && inst(tup.1) == inst(now) + dur(ttl));
 }"""},
 ]
 
